@@ -83,3 +83,59 @@ Lemma sample_visible :
   /\ lookup (s "PE_T") e = Some (s "4") /\ lookup (s "UE") e = Some (s "4") /\ lookup (s "SECRETS") e = Some (s "/h/a")
   /\ lookup (s "HOME") e = Some (s "/tmp/b").
 Proof. vm_compute. repeat split. Qed.
+
+(* 5. The command-environment PROGRAM of ExecCommand / ExecWithTimeout, translated statement by statement by gotrans
+      (guard, base, appended items), interpreted here, equals the model's cmd_env for every sandbox mode, sandbox
+      configuration, caller and list - so a statement that seeds cmd.Env from anything else (os.Environ(), say),
+      drops or reorders an append, or guards it differently makes THIS lemma false (not just a text comparison);
+      a guard, base or item the interpreter does not know yields None (fail closed). *)
+Definition guard_holds (g : string) (mode : sandbox_mode) : option bool :=
+  if String.eqb g "" then Some true
+  else if String.eqb g "sandbox != NoSandbox" then Some (match mode with SbNone => false | _ => true end)
+  else if String.eqb g "sandbox != NoSandbox && e.usePleaseSandbox" then Some (match mode with SbBuiltin => true | _ => false end)
+  else if String.eqb g "sandbox != NoSandbox && !(e.usePleaseSandbox)" then Some (match mode with SbTool => true | _ => false end)
+  else None.
+
+Definition item_entries (it : string) (uid : str) (net mount : bool) (e : env) : option env :=
+  if String.eqb it """SANDBOX_UID="" + strconv.Itoa(os.Getuid())" then Some [(s "SANDBOX_UID", uid)]
+  else if String.eqb it """SHARE_NETWORK="" + boolToString(!sandbox.Network)" then Some [(s "SHARE_NETWORK", bool01 (negb net))]
+  else if String.eqb it """SHARE_MOUNT="" + boolToString(!sandbox.Mount)" then Some [(s "SHARE_MOUNT", bool01 (negb mount))]
+  else if String.eqb it "env..." then Some e
+  else None.
+
+Fixpoint items_entries (its : list string) (uid : str) (net mount : bool) (e : env) : option env :=
+  match its with
+  | [] => Some []
+  | [it] => item_entries it uid net mount e
+  | it :: r => match item_entries it uid net mount e, items_entries r uid net mount e with
+               | Some a, Some b => Some (a ++ b)
+               | _, _ => None
+               end
+  end.
+
+(* what the new value of cmd.Env starts from *)
+Definition base_env (b : string) (caller acc : env) : option env :=
+  if String.eqb b "cmd.Env" then Some acc
+  else if String.eqb b "<fresh>" then Some []              (* cmd = exec.Command(...): Env is nil *)
+  else if String.eqb b "os.Environ()" then Some caller     (* understood, so that the lemma below is FALSE rather than stuck *)
+  else None.
+
+Fixpoint interp_env_prog (prog : list (string * string * string * list string)) (mode : sandbox_mode) (uid : str)
+         (net mount : bool) (caller e acc : env) : option env :=
+  match prog with
+  | [] => Some acc
+  | (_, g, b, its) :: r =>
+      match guard_holds g mode with
+      | None => None
+      | Some false => interp_env_prog r mode uid net mount caller e acc
+      | Some true =>
+          match base_env b caller acc, items_entries its uid net mount e with
+          | Some b0, Some l => interp_env_prog r mode uid net mount caller e (b0 ++ l)
+          | _, _ => None
+          end
+      end
+  end.
+
+Lemma exec_env_prog_ok : forall mode uid net mount caller e,
+  interp_env_prog Gen.C10Env.exec_env_prog mode uid net mount caller e [] = Some (cmd_env mode uid net mount e).
+Proof. intros mode uid net mount caller e. destruct mode; reflexivity. Qed.
